@@ -59,7 +59,7 @@ Definition SEEK_LIMIT : Z := 2 ^ 63.      (* BytesIO.seek(pos >= 2**63) raises O
    ConstructError and the OverflowError of an unseekable position -> ELFParseError *)
 Definition struct_parse_at (L : layout) (b : binds) (img : list Z) (pos : Z) : res hrec :=
   if SEEK_LIMIT <=? pos then Err EParse
-  else match decode_layout L (drop pos img) with
+  else match decode_layout L (window L (drop pos img)) with
        | Some (r, _) => match adapt b r with Some h => Ok h | None => Err EParse end
        | None => Err EParse
        end.
@@ -205,9 +205,9 @@ Definition get_string (c : efcore) (strtab : hrec) (offset : Z) : res (list Z) :
   let pos := hz strtab "sh_offset" + offset in
   if SEEK_LIMIT <=? pos then Err (EPy "OverflowError")
   else if stream_len c <=? pos then Ok []            (* read at/after EOF: no terminator *)
-  else match parse_cstring_at (c_img c) (Z.to_nat pos) with
-       | Some s => Ok s
-       | None => Ok []
+  else match cstr_chunks (S (Z.to_nat (stream_len c / 64))) (drop pos (c_img c)) with
+       | Some s => Ok s         (* parse_cstring_from_stream: 64-byte chunks until a NUL; at most *)
+       | None => Ok []          (* |stream|/64 + 1 chunks can be read *)
        end.
 
 (* ---- _get_section_name *)
